@@ -210,6 +210,18 @@ def evaluate(case, out):
                 out.lib_exception("sample_size", e)
                 return
             out.expect(got == k, "estimate!=first-crossing-on-tiled-pilot", lambda: {"got": got, "want": k, "N": N, "len(x)": len(x)})
+            # the assertion-level entry point with pilot data
+            try:
+                from shangrla.core.Audit import Assertion, Contest
+
+                con = Contest.from_dict({"id": "C", "name": "C", "risk_limit": alpha, "cards": N, "choice_function": "PLURALITY", "n_winners": 1,
+                                         "candidates": ["A", "B"], "winner": ["A"], "audit_type": "POLLING", "use_style": True})
+                asn = Assertion(contest=con, winner="A", loser="B", margin=0.1, test=nonneg.make_test(cfg))
+                got2 = asn.find_sample_size(data=np.array(x, dtype=float), reps=None)
+            except Exception as e:  # noqa
+                out.lib_exception("Assertion.find_sample_size(data)", e)
+                return
+            out.expect(got2 == k and asn.sample_size == k, "assertion-level-estimate-from-pilot!=first-crossing", lambda: {"got": got2, "want": k})
             out.nontrivial = (1 < k < N) or not crossed
             out.cls("never-crosses" if not crossed else "crosses")
             return
